@@ -64,7 +64,7 @@ def pair_options(nout_src):
     return opts
 
 
-def build_job(ch, n, multi, gpu_possible, fixed_edges=None):
+def build_job(ch, n, multi, gpu_possible, fixed_edges=None, with_ext=True):
     """Returns (JobInstance, spec) -- spec is the plain description used by the sequential oracle."""
     spec = {"tasks": [], "edges": [], "ext": []}
     for j in range(n):
@@ -86,7 +86,7 @@ def build_job(ch, n, multi, gpu_possible, fixed_edges=None):
         needs_gpu = bool(gpu_possible and ch.flag(f"gpu{j}"))
         spec["tasks"].append({"nout": nout, "ins": ins, "static_pos": pos, "needs_gpu": needs_gpu})
         for o in out_names(nout):
-            if ch.flag(f"ext{j}_{o}"):
+            if with_ext and ch.flag(f"ext{j}_{o}"):
                 spec["ext"].append((j, o))
     tasks, edges = {}, []
     for j, t in enumerate(spec["tasks"]):
